@@ -30,6 +30,7 @@ let () =
   Alloc_driver.register reg;
   Pages_driver.register reg;
   Monitor_driver.register reg;
+  Pqw_driver.register reg;
   try
     while true do
       let line = input_line stdin in
